@@ -18,7 +18,7 @@ CLAIMED = {
  'C01': ('Lean 4 proof: invariant by induction over chain, instants and schedule operations + whole-history correspondence',
          'C01.C01: for every configuration (any chain, load function, controller) and every list of schedule operations, every recorded instant is kinematically coupled (position, speed, acceleration; held instants included); C01_segments / C01_segments_ratios: the same when controller, load function or relations change between runs; C01_pipeline: with the ratios the declarations wrote. Tie: random chains of all element kinds in random units run on the real solver and on the compiled model, whole histories compared, oracle recomputes up = ratio x down.'),
  'C02': ('Lean 4 proof: record invariant (driving/load/net torque laws, load = user function at the recorded state) + whole-history correspondence',
-         'C02.C02 for every load function and motor characteristic, every history; index and division-free forms; C02_current; C02_segments (configuration changes between runs). Tie: schedules in which the controller, the load function, a relation or the units of live parameter objects change between runs; the harness logs the arguments the real code passes to the load function and compares histories with the model.'),
+         'C02.C02 for every load function and motor characteristic, every history; index and division-free forms; C02_current; C02_segments (configuration changes between runs); stage_power / chain_power (power leaving a stage = efficiency x power entering it, end to end the product of the efficiencies). Tie: schedules in which the controller, the load function, a relation or the units of live parameter objects change between runs; the harness logs the arguments the real code passes to the load function and compares histories with the model.'),
  'C03': ('Lean 4 proof: equation of motion per record, step relation between consecutive records by induction over loops/runs + correspondence',
          'C03_acc (not held => acceleration = net torque / documented inertia reduction) and loop_steps/run_steps (consecutive records satisfy the semi-implicit update, fresh and continued runs). Tie: whole-history and lock-step correspondence, inertias/dt/initial conditions in random units.'),
  'C04': ('Lean 4 proof: reduction of the model step to an affine map (Q) + Euler-vs-exponential bound in R (Mathlib analysis); order of convergence measured',
@@ -36,7 +36,7 @@ CLAIMED = {
  'C10': ('Lean 4 proof: plan-then-write model of the three declaration functions; rejected => heap unchanged for any call sequence; post-conditions; efficiency-range iffs',
          'rejected_unchanged / declareAll_step, gear_post / worm_post / joint_post, gear_rejects / worm_rejects / joint_rejects, drives_eq_declared (forward links = last accepted call per master), accepted_ratio_pos / accepted_eff_range, wormEff_range_master / wormEff_range_wheel. Tie: random pools and call sequences (mostly-valid and malformed streams), every element snapshotted before/after every call on both sides.'),
  'C11': ('Lean 4 proof: exact grid laws on the unit-carrying time axis + robustness of the guarded floor under bounded rounding perturbation (and fragility of the arange count)',
-         'steps_exact, never_beyond, fresh_axis, continued_axis, continued_axis_any_solver, stopped_axis_prefix, axis_spacing/strictMono, count_robust, guard_suffices, arange_fragile. Tie: sweep of decimal dt x n x units through the real Solver.run (physics patched out in-process) vs the grid model; several Solver objects used in turn on one powertrain.'),
+         'steps_exact, never_beyond, fresh_axis, continued_axis, continued_axis_any_solver, stopped_axis_prefix, axis_spacing/strictMono, schedule_axis_increasing / schedule_axis_nodup (whole recorded axis strictly increasing along every schedule of runs, resets and attribute changes), count_robust, guard_suffices, arange_fragile. Tie: sweep of decimal dt x n x units through the real Solver.run (physics patched out in-process) vs the grid model; several Solver objects used in turn on one powertrain.'),
  'C12': ('Lean 4 proof: schedule equivalence (run split by grid/loop append; rerun after reset by equality of the first compute) + negation witness for the unprovisoed statement',
          'run_split, run_split_units, stop_then_continue (early stop + continuation = uninterrupted run), rerun_eq (same or new solver) under the proviso that reset restores the pre-run duty cycle or the chain is not self-locking; K3_witness / rerun_full_false show the proviso is necessary (known finding K3). Tie: schedule pairs on the real code, whole histories vs model.'),
  'C13': ('Lean 4 proof: lock state machine invariants (never clamped without self-locking, sign safety, held still, release condition)',
@@ -46,11 +46,11 @@ CLAIMED = {
  'C15': ('Lean 4 proof: window/value characterisation of the four rules + root of the current law (cross-module with C08)',
          'constant_window, reach_rule, ramp_rule (+ endpoints), limit_rule, the window edges belong to the windows (reach_at_start, reach_before_start, ramp_at_target_rule, ramp_beyond_target, limit_at_target, limit_beyond_target, constant_at_edges), limit_root, limit_outside_deadzone, limit_current_exact (the motor current law at the proposed duty cycle equals the limit). Tie: controlled simulations, documented formulas recomputed from the recorded state, recorded current = limit while in force; rules asked for their proposal by hand on dyadic numbers that hit the window edges exactly, compared with the documented value and with Rule.apply of the model.'),
  'C16': ('Lean 4 proof: the stopped loop is the unstopped loop over a prefix of the grid; predicate false on every strict prefix, true at the end if stopped early',
-         'stop_prefix, stop_times, stopNow_stopCond. Tie: thresholds placed between consecutive readings of the unstopped run, stopped history compared with the prefix and with the model.'),
+         'stop_prefix, stop_times, fresh_run_records_two, run_stop_steps (the stopped Solver.run is the unstopped run of the first step count that satisfies the condition), stop_steps_unique, stopNow_stopCond. Tie: thresholds placed between consecutive readings of the unstopped run, stopped history compared with the prefix and with the model.'),
  'C17': ('Lean 4 proof: bookkeeping invariant (one sample per instant per present key) by induction over update/reset sequences; advertised iff recorded for all kinds x data subsets',
-         'advertised_iff_records, lengths_inv, export_total, last_is_attr. Tie: all element kinds x optional-data subsets x schedules; keys/lengths vs model; export and snapshot executed on every simulated powertrain.'),
+         'advertised_iff_records, lengths_inv, export_total, last_is_attr, record_shape / schedule_record_shape (one sample per element per instant for the six kinematic and torque variables along every schedule). Tie: all element kinds x optional-data subsets x schedules; keys/lengths vs model; export and snapshot executed on every simulated powertrain.'),
  'C18': ('Lean 4 proof: interpolation at knots / between knots on strictly increasing axes, commutation with unit conversion, column selection logic',
-         'interp_at_knot, interp_between / interp_between_at (any segment of an unequally spaced axis), interp_within, interp_not_sample / interp_offset (no snapping to a neighbouring sample), interp_outside_left/right, cell_linear, columns_subset/complete, reports_iff, sortOrder_matches, exportColumn_cell / exportColumn_unit_invariant / exportColumn_append (a series whose samples carry different units is exported sample by sample). Tie: real snapshot tables and re-read CSV exports compared cell by cell with the oracle and the model (exported columns against exportColumn on the stored value/unit pairs).'),
+         'interp_at_knot, recorded_axis_strictInc / snapshot_at_recorded (the axis hypothesis discharged for every schedule of the solver model), interp_between / interp_between_at (any segment of an unequally spaced axis), interp_within, interp_not_sample / interp_offset (no snapping to a neighbouring sample), interp_outside_left/right, cell_linear, columns_subset/complete, reports_iff, sortOrder_matches, exportColumn_cell / exportColumn_unit_invariant / exportColumn_append (a series whose samples carry different units is exported sample by sample). Tie: real snapshot tables and re-read CSV exports compared cell by cell with the oracle and the model (exported columns against exportColumn on the stored value/unit pairs).'),
  'C19': ('Lean 4 proof: validity invariant over all straight-line programs of quantity operations (induction on the program) + constructor iffs',
          'valid_inv (every live object valid after every step of every program), sub_none_unreachable, mk_ok_iff, motorCtor_ok_iff, setPwm_ok_iff. Tie: random 40-step programs with store inspection on both sides, tiny-value stream (finds K4), constructor boundary cases.'),
  'C20': ('Lean 4 proof: chain walk (with fuel) is linked by drives and suffix-closed; error cases; self-locking flag iff',
